@@ -47,8 +47,25 @@ class WcBase(plumpy.WorkChain):
     def define(cls, spec):
         super().define(spec)
         spec.outputs.dynamic = True
+        from plumpy import if_, while_
         n = len(cls.WCPROGRAM['steps'])
-        spec.outline(*[getattr(cls, 'w%d' % i) for i in range(n)])
+        wrap = cls.WCPROGRAM.get('wrap') or [None] * n
+        outline = []
+        for i in range(n):
+            step = getattr(cls, 'w%d' % i)
+            how = wrap[i] if i < len(wrap) else None
+            # the step as the (last) instruction of a control-flow body, followed by the rest of the outline
+            if how == 'if':
+                outline.append(if_(cls.yes)(step))
+            elif how == 'else':
+                outline.append(if_(cls.no)(cls.never).else_(step))
+            elif how == 'elif':
+                outline.append(if_(cls.no)(cls.never).elif_(cls.yes)(step))
+            elif how == 'while':
+                outline.append(while_(getattr(cls, 'once%d' % i))(step))
+            else:
+                outline.append(step)
+        spec.outline(*outline)
 
     def __init__(self, *args, **kwargs):
         super().__init__(*args, **kwargs)
@@ -57,6 +74,15 @@ class WcBase(plumpy.WorkChain):
 
     _attach = programs.ProgBase._attach
     _t = programs.ProgBase._t
+
+    def yes(self):
+        return True
+
+    def no(self):
+        return False
+
+    def never(self):
+        raise AssertionError('branch of a false condition executed')
 
     def _wstep(self, i):
         env = ENV
@@ -105,8 +131,20 @@ def _mk(i):
     return w
 
 
+def _mk_once(i):
+    def once(self):
+        # true the first time only (the position is kept in the context, i.e. in persisted state)
+        seen = self.ctx.get('_once%d' % i, False)
+        self.ctx['_once%d' % i] = True
+        return not seen
+
+    once.__name__ = 'once%d' % i
+    return once
+
+
 for _i in range(8):
     setattr(WcBase, 'w%d' % _i, _mk(_i))
+    setattr(WcBase, 'once%d' % _i, _mk_once(_i))
 generated.register(WcBase, 'WcBase')
 
 _CACHE = {}
